@@ -48,6 +48,14 @@ def run(ctx, chk):
             chk.ob(d is not None and d[0] == "seq" and d[1] == ("rest", hdr), "C15/%s/data=%s" % (struct, d and d[1]),
                    "%s.%s [%s] is %r, expected all payload bytes from byte %d" % (struct, path, cfg, d, hdr),
                    sample={"struct": struct, "data": "payload[%d..]" % hdr, "bytes": repr(o.nset())})
+            # (ii') the application identifier / correction header fields are the transmitted bits
+            from ..spec import itu as _itu
+            from .c04 import infer_shape
+            exp = _itu.expected_fields(struct, infer_shape(struct, flat, o)) or {}
+            for fp, (foff, fw, fkind) in exp.items():
+                if fkind == "raw" and fp not in ("message_type", "repeat_indicator", "mmsi"):
+                    got = flat.get(fp)
+                    chk.ob(got == ("bits", foff, fw), "C15/%s/%s/got=%r" % (struct, fp, got), "%s.%s [%s] is %r, the transmitted field occupies bits %d..%d" % (struct, fp, cfg, got, foff, foff + fw - 1))
             # (iii) alignment: reads tile [0, 8*hdr)
             reads = [(e[2], e[3]) for e in o.reads if e[0] == "take" and e[3] > 0]
             # the dispatcher reads the type first; the message parser then starts again at bit 0
